@@ -36,12 +36,39 @@ func init() {
 	hx.Register("ident", "replay Ident.tla strings (-mode us|uh|rm|sn|split)", func(a *hx.Args) error {
 		mode := a.Mode
 		switch mode {
-		case "us", "uh", "rm", "sn", "split":
+		case "us", "uh", "uhs", "ush", "rm", "sn", "split":
 		default:
 			return fmt.Errorf("ident: -mode must be one of us uh rm sn split")
 		}
-		return hx.ReplayAll(a, func(i int, raw json.RawMessage) hx.Result { return identReplay(mode, raw) })
+		return hx.ReplayAll(a, func(i int, raw json.RawMessage) hx.Result {
+			switch mode {
+			case "uhs": // both user-ID parses of the same string in one process: historical first, strict after it
+				if res := identReplay("uh", raw); !res.OK {
+					return res
+				}
+				res := identReplay("us", raw)
+				return afterCall(res, "historical-then-strict")
+			case "ush":
+				if res := identReplay("us", raw); !res.OK {
+					return res
+				}
+				res := identReplay("uh", raw)
+				return afterCall(res, "strict-then-historical")
+			}
+			return identReplay(mode, raw)
+		})
 	})
+}
+
+// afterCall marks the result of the second call of a two-call sequence: the order is part of the scenario.
+func afterCall(res hx.Result, order string) hx.Result {
+	if res.OK {
+		res.NT += "|" + order
+		return res
+	}
+	res.Key += "/order=" + order
+	res.What += " [second call of the sequence " + order + " on the same string in one process]"
+	return res
 }
 
 // realise turns abstract elements into the concrete string.
@@ -127,6 +154,9 @@ func identReplay(mode string, raw json.RawMessage) hx.Result {
 		want, k := r.RM, r.KR
 		rid, err := spec.NewRoomID(s)
 		got := verdictOf(err == nil)
+		if _, err2 := spec.NewRoomID(s); (err2 == nil) != (err == nil) {
+			return fail("NewRoomID", r.KR, r.RM, "unstable", "the same call answers differently the second time")
+		}
 		nt := mode + "|" + k + "|" + want + "|" + got
 		if want != "free" && want != got {
 			return fail("NewRoomID", k, want, got, fmt.Sprintf("the grammar says %s, the library says %s (err=%v)", want, got, err))
@@ -152,6 +182,9 @@ func identReplay(mode string, raw json.RawMessage) hx.Result {
 		want, k := r.SN, r.KS
 		host, port, valid := spec.ParseAndValidateServerName(spec.ServerName(s))
 		got := verdictOf(valid)
+		if h2, p2, v2 := spec.ParseAndValidateServerName(spec.ServerName(s)); h2 != host || p2 != port || v2 != valid {
+			return fail("ParseAndValidateServerName", r.KS, r.SN, "unstable", "the same call answers differently the second time")
+		}
 		nt := mode + "|" + k + "|" + want + "|" + got
 		if want != "free" && want != got {
 			return fail("ParseAndValidateServerName", k, want, got, fmt.Sprintf("the grammar says %s, the library says %s (host=%q port=%d)", want, got, host, port))
